@@ -75,7 +75,16 @@ type Lemma struct {
 	Line    int
 }
 
+type ValidDecl struct {
+	Pkg  string
+	Type string // type name within Pkg
+	Var  string
+	Src  string
+	Expr ast.Expr
+}
+
 type ContractDB struct {
+	Valid  map[string]*ValidDecl // "pkg.Type"
 	Funcs  map[string]*FuncContract
 	Specs  map[string]*SpecFunc // pkg-qualified: "jt808.elen"
 	Lemmas map[string]*Lemma
@@ -91,7 +100,7 @@ func (db *ContractDB) forFunc(key string) *FuncContract {
 }
 
 func loadContracts(p *Program) *ContractDB {
-	db := &ContractDB{Funcs: map[string]*FuncContract{}, Specs: map[string]*SpecFunc{}, Lemmas: map[string]*Lemma{}}
+	db := &ContractDB{Valid: map[string]*ValidDecl{}, Funcs: map[string]*FuncContract{}, Specs: map[string]*SpecFunc{}, Lemmas: map[string]*Lemma{}}
 	seen := map[string]bool{}
 	for _, path := range loadPatterns {
 		dir := p.pkgDir(path)
@@ -304,6 +313,16 @@ func (db *ContractDB) parseFile(pkg, file, text string) {
 			key := pkg + "." + rest
 			cur = &FuncContract{Key: key, Pkg: pkg, Mode: "inline", File: file, Line: l.line}
 			db.Funcs[key] = cur
+		case "valid":
+			// valid TypeName v: expr
+			label, src := splitLabel(strings.TrimSpace(strings.TrimPrefix(rest, fs[1])))
+			e, err := parseSpecExpr(src)
+			if err != nil || label == "" {
+				errf(l.line, "bad valid declaration")
+				continue
+			}
+			db.Valid[pkg+"."+strings.TrimPrefix(fs[1], "*")] = &ValidDecl{Pkg: pkg, Type: strings.TrimPrefix(fs[1], "*"), Var: label, Src: src, Expr: e}
+			cur = nil
 		case "mode":
 			if cur != nil {
 				cur.Mode = rest
